@@ -22,6 +22,7 @@ var insertPool = []Tok{
 	{Kind: reftok.String, Text: "'s'", Value: "s"},
 	{Kind: reftok.Error, Text: "!"}, {Kind: reftok.Error, Text: "0x"}, {Kind: reftok.Error, Text: "#"}, {Kind: reftok.Error, Text: "\\"},
 	{Kind: reftok.Error, Text: "\xff"}, {Kind: reftok.Error, Text: "{"}, {Kind: reftok.Error, Text: "@"},
+	{Kind: reftok.Error, Text: "0x10000000000000001"}, {Kind: reftok.Error, Text: "@\"v\""},
 	{Kind: reftok.Error, Text: "\ufeff"}, {Kind: reftok.Error, Text: "\u200b"}, {Kind: reftok.Error, Text: "\ufffd"},
 	{Kind: reftok.Error, Text: "0.5.5"}, {Kind: reftok.Error, Text: "1e+"}, {Kind: reftok.Error, Text: "0x00000000000000001x"},
 }
